@@ -1,5 +1,5 @@
 from algo_prop import make
-LEAN_EXTRA = ["PyXABProofs.Lemmas.OT_Bridge", "PyXABProofs.Generated.OrderTieC12"]
+LEAN_EXTRA = ["PyXABProofs.Props.SequOOLBudget", "PyXABProofs.Lemmas.OT_Bridge", "PyXABProofs.Generated.OrderTieC12"]
 ALGOS = ['SequOOL']
 budget, explore, search, replay = make("C12", ALGOS, quick_per_algo=24, thorough_per_algo=300, salt=1200)
 RULE = ("the documented pull/receive loop on the real classes: algorithm x partition class (K 2..5) x dimension 1..3 x box shape x "
